@@ -41,6 +41,25 @@ example : ∃ cnf, tseitinOrd clashForm [] [] = some cnf ∧
        .iff (.atom 10) (.and (.atom 4) (.atom 8)), clashForm] := by decide
   exact ⟨_, h1, encode_sequent_valid h1 h2 _ (by decide)⟩
 
+/-- The CNF `encode` states is what its theorem instances produce: one instance of
+`encode_not/conj/disj/imp/eq` (or `eq_true` / `eq_false`) per non-atomic subterm, with the
+subterm's and its arguments' variables substituted, each contributing the right-hand side of the
+rule as `library/sat.json` states it — plus the top variable's unit clause.  (These instances are
+what the harness reads off the `theorem` + `substitution` lines of the real exported proof term and
+compares with the model; the proof term itself — about 100 primitive steps and the macros
+`imp_conj`, `apply_theorem` per formula — is not replayed on the kernel model.) -/
+theorem encode_instances_cover {f : Form} (extra : List Nat) {o : List Form}
+    (h : orderOK o f = true) :
+    tseitinOrd f extra o = some
+      ((o.filterMap (ruleInstance (freshNames (f.names ++ extra) o.length) o)).flatMap
+          instanceClauses ++ [[(varOf (freshNames (f.names ++ extra) o.length) o f, true)]]) :=
+  tseitinOrd_eq_instances extra h
+
+/-- `a ∧ ¬x1`: two instances, `encode_not[l := x4, r := x3]` and `encode_conj[l := x5, r1 := x2, r2 := x4]` -/
+example : (dedupF clashForm.subs).filterMap
+    (ruleInstance (freshNames clashForm.names 4) (dedupF clashForm.subs)) =
+    [(.encode_not, [8, 6]), (.encode_conj, [10, 4, 8])] := by decide
+
 /-! ### replay of resolution traces by `logic.resolution` (zChaff.solve, proofrec.solve_cnf) -/
 
 /-- One `logic.resolution(pt1, pt2)` step derives a consequence: wherever both clauses hold, the
@@ -86,6 +105,30 @@ theorem solver_trace_replays {fuel : Nat} {cnf : CNF} {o : Oracle} {c' : CNF}
 
 example : proofrecCheck (exUnsat.map dedup) [[3, 1], [2, 4, 0, 4]] = true :=
   solver_trace_replays exUnsat_run
+
+/-- `zChaff.solve` end to end, from the content of the trace file (the whitespace-separated tokens
+of its lines, numbers already read): if the lines parse, the `CL` lines replay with `logic.resolution`, every `VAR` line
+follows from its antecedent clause and the values recorded before (in level order), and the `CONF`
+clause is falsified by recorded values — i.e. if the reconstruction reaches `false` — then the CNF
+is unsatisfiable. -/
+theorem zchaff_replay_sound {cnf : CNF} {lines : List (List ZTok)}
+    (h : zCheckLines cnf lines = true) : ¬ ∃ σ, Sat σ cnf :=
+  zCheckLines_sound h
+
+/-- `(a) (¬a ∨ b) (¬b)`: no learned clause, two implications, conflict in clause 2 -/
+example : zCheckLines [[(1, true)], [(1, false), (2, true)], [(2, false)]]
+    [[.word "VAR:", .num 1, .word "L:", .num 0, .word "V:", .num 1, .word "A:", .num 0, .word "Lits:", .num 2],
+     [.word "VAR:", .num 2, .word "L:", .num 0, .word "V:", .num 1, .word "A:", .num 1, .word "Lits:", .num 3, .num 4],
+     [.word "CONF:", .num 2, .word "==", .num 5]] = true := by decide
+example : ¬ ∃ σ, Sat σ [[(1, true)], [(1, false), (2, true)], [(2, false)]] :=
+  zchaff_replay_sound (lines := [[.word "VAR:", .num 1, .word "L:", .num 0, .word "V:", .num 1, .word "A:", .num 0, .word "Lits:", .num 2],
+     [.word "VAR:", .num 2, .word "L:", .num 0, .word "V:", .num 1, .word "A:", .num 1, .word "Lits:", .num 3, .num 4],
+     [.word "CONF:", .num 2, .word "==", .num 5]]) (by decide)
+/-- a trace whose second implication cites the wrong clause is rejected -/
+example : zCheckLines [[(1, true)], [(1, false), (2, true)], [(2, false)]]
+    [[.word "VAR:", .num 1, .word "L:", .num 0, .word "V:", .num 1, .word "A:", .num 0, .word "Lits:", .num 2],
+     [.word "VAR:", .num 2, .word "L:", .num 0, .word "V:", .num 1, .word "A:", .num 2, .word "Lits:", .num 3, .num 4],
+     [.word "CONF:", .num 2, .word "==", .num 5]] = false := by decide
 
 /-! ### termination -/
 
